@@ -1,40 +1,22 @@
 #!/bin/bash
-# Regression of the checks themselves (not a registered check): unchanged tree silent, every seeded change detected,
-# every behaviour-preserving refactor silent.  Applies patches to /repo and reverts them - do not run anything else that
-# reads or writes /repo's working tree at the same time.
+# Regression of the checks themselves (not a registered check): unchanged tree silent, every seeded change detected by the check
+# named in its meta.json (documented misses excepted), every behaviour-preserving refactoring silent under every check.
+# Works on scratch copies of /repo's sources under /tmp (removed afterwards); /repo itself is never touched.
 cd /verif
 fail=0
-E=/tmp/qv-evidence-scratch
-all_checks() {   # runs every check in parallel, prints the ids that did not exit 0
-  local bad=""
-  for p in $(python3 run.py list); do
-    ( QV_EVIDENCE_DIR=$E/$p python3 run.py check $p >/tmp/rg_$p.out 2>&1; echo $? >/tmp/rg_$p.rc ) &
-  done
-  wait
-  for p in $(python3 run.py list); do [ "$(cat /tmp/rg_$p.rc)" = "0" ] || bad="$bad $p"; done
-  echo "$bad"
-}
+ALL=$(python3 run.py list)
 echo "== unchanged tree"
-git -C /repo diff --quiet || { echo "/repo has local changes - refusing"; exit 2; }
-bad=$(all_checks); [ -z "$bad" ] || { echo "  FAIL:$bad"; fail=1; }
+for p in $ALL; do ( QV_EVIDENCE_DIR=/tmp/qv-evidence-scratch/rg-$p python3 run.py check $p >/tmp/rg_$p.out 2>&1; echo $? >/tmp/rg_$p.rc ) & done; wait
+for p in $ALL; do [ "$(cat /tmp/rg_$p.rc)" = "0" ] || { echo "  FAIL: $p"; fail=1; }; done
 echo "== seeded changes"
-for d in /verif/seeded/*/; do
-  id=$(basename $d); prop=$(python3 -c "import json;m=json.load(open('$d/meta.json'));print(m.get('detect_with') or m['property'])")
-  git -C /repo apply --check $d/patch.diff 2>/dev/null || { echo "  $id: patch does not apply to the current tree"; fail=1; continue; }
-  git -C /repo apply $d/patch.diff
-  QV_EVIDENCE_DIR=$E/$prop python3 run.py check $prop >/tmp/rg.out 2>&1; rc=$?
-  git -C /repo checkout -- .
-  if python3 -c "import json,sys;sys.exit(0 if 'NOT DETECTED' in json.load(open('$d/meta.json'))['detected_by'] else 1)"; then exp="(documented miss)"; else exp=""; [ $rc -eq 1 ] || { fail=1; exp="UNEXPECTED"; }; fi
-  echo "  $id $prop rc=$rc $exp"
-done
+tools/seedsweep.sh $ALL | sort > /tmp/rg_seeds.out
+cat /tmp/rg_seeds.out
+# a seed must give rc=1 unless it is a documented miss
+grep -v "documented miss" /tmp/rg_seeds.out | grep -v "rc=1 " | grep -q . && { echo "  UNEXPECTED seed results:"; grep -v "documented miss" /tmp/rg_seeds.out | grep -v "rc=1 "; fail=1; }
 echo "== behaviour-preserving refactors"
-for d in /verif/refactors/*/; do
-  [ -f $d/patch.diff ] || continue
-  git -C /repo apply --check $d/patch.diff 2>/dev/null || { echo "  $(basename $d): does not apply"; fail=1; continue; }
-  git -C /repo apply $d/patch.diff
-  bad=$(all_checks)
-  git -C /repo checkout -- .
-  [ -z "$bad" ] && echo "  $(basename $d) silent" || { echo "  $(basename $d) ALARM:$bad"; fail=1; }
-done
-rm -rf $E /tmp/rg_*.out /tmp/rg_*.rc
+tools/rfsweep.sh $ALL > /tmp/rg_rf.out
+cat /tmp/rg_rf.out
+[ "$(grep -v 'rfsweep done' /tmp/rg_rf.out | grep -c .)" = "0" ] || fail=1
+rm -rf /tmp/qv-evidence-scratch /tmp/rg_*.out /tmp/rg_*.rc /tmp/sw_*.out /tmp/rfs_*.out
+echo "== regress $( [ $fail = 0 ] && echo OK || echo FAILED )"
 exit $fail
